@@ -377,7 +377,12 @@ def pw (a : List Float) : Float := pwFuel a.length a
 /-- `np.mean` of a contiguous run -/
 def npMean (a : List Float) : Float := pw a / a.length.toFloat
 
-def fsort (l : List Float) : List Float := l.mergeSort (fun a b => decide (a ≤ b))
+def insertSorted (a : Float) : List Float → List Float
+  | [] => [a]
+  | b :: l => if a ≤ b then a :: b :: l else b :: insertSorted a l
+
+/-- insertion sort (structural recursion: the kernel evaluates it) -/
+def fsort (l : List Float) : List Float := l.foldr insertSorted []
 
 /-- `np.median` (no NaN): the middle order statistic, or the mean of the two middle ones -/
 def npMedian (l : List Float) : Float :=
